@@ -40,7 +40,8 @@ type freeResult struct {
 type freeOpts struct {
 	MaxIns   int  `json:"max_inserters"`
 	MaxPer   int  `json:"max_per_inserter"`
-	Single   bool `json:"single"` // one goroutine does everything (inserts, flushes, close)
+	Singles  int  `json:"single_every"` // every n-th run: one goroutine does everything (inserts, flushes, close)
+	Single   bool `json:"-"`
 	Rich     bool `json:"rich"`
 	Above63  bool `json:"above63"`
 	TLCLimit int  `json:"tlc_limit"` // runs larger than this are not written to the TLC trace
@@ -86,7 +87,7 @@ func runFree(run int, o freeOpts, dir string, rng *rand.Rand) (out []map[string]
 	res = freeResult{Run: run}
 	t0 := time.Now()
 	defer func() { res.Millis = time.Since(t0).Milliseconds() }()
-	base := filepath.Join(dir, fmt.Sprintf("f%d", run))
+	base := filepath.Join(dir, fmt.Sprintf("f%d-%d", run, fileSeq.Add(1)))
 	file := base + ".sqlite3"
 	defer os.Remove(file)
 	res.Procs = []int{1, 2, 4, 16}[rng.Intn(4)]
@@ -300,7 +301,7 @@ type valueResult struct {
 
 func runValues(k int, shape, class string, batch int, pattern string, n int, dir string, rng *rand.Rand) (res valueResult) {
 	res = valueResult{Case: fmt.Sprintf("v%d", k), Shape: shape, Class: class, Batch: batch, Pattern: pattern}
-	base := filepath.Join(dir, fmt.Sprintf("v%d", k))
+	base := filepath.Join(dir, fmt.Sprintf("v%d-%d", k, fileSeq.Add(1)))
 	file := base + ".sqlite3"
 	defer os.Remove(file)
 	var rec dr.DataRecorder
@@ -396,7 +397,9 @@ func init() {
 			if in.BudgetS > 0 && time.Since(t0) > time.Duration(in.BudgetS)*time.Second {
 				break
 			}
-			log, r := runFree(i, in.freeOpts, in.Dir, rng)
+			o := in.freeOpts
+			o.Single = o.Singles > 0 && i%o.Singles == 0
+			log, r := runFree(i, o, in.Dir, rng)
 			results = append(results, r)
 			if in.TLCLimit == 0 || r.Entries <= in.TLCLimit {
 				traced++
